@@ -185,7 +185,7 @@ def ent_inputs(tier, seed):
     out = []
     # table-driven: every name, with and without ';', wrong case, prefix, suffix
     for n in names:
-        out += ["&%s;" % n, "&%s" % n, "&%s;;" % n, "a&%s;b" % n, "&%s;&%s;" % (n, n), "&%sx;" % n, "&%s;" % n.swapcase(), "&#%s;" % n]
+        out += ["&%s;" % n, "&%s" % n, "&%s;;" % n, "a&%s;b" % n, "&%s;&%s;" % (n, n), "&%sx;" % n, "&%s;" % n.swapcase(), "&#%s;" % n, "&0%s;" % n, "&00%s;" % n, "&#x%s;" % n, "&%s0;" % n, "& %s;" % n, "&%s ;" % n]
     # numeric boundaries
     for v in (0, 1, 9, 10, 65, 0xD7FF, 0xD800, 0xFFFF, 0x10000, 0x10FFFF, 0x110000, 99999999, 100000000, 0xFFFFFFF, 0xFFFFFFFF, 0x100000000):
         for z in ("", "0", "000", "0" * 9, "0" * 40):
